@@ -169,6 +169,10 @@ def jobs(tier, seed):
             if inexact:
                 cfg['float_inexact'] = True
             js.append({'harness': 'stamp', 'cfg': cfg, 'weight': 10})
+    # another line rate
+    for kind, t in (('WFQ', {0: 1, 1: 1}), ('VC', {0: 1, 1: 2})):
+        js.append({'harness': 'stamp', 'weight': 10,
+                   'cfg': {'kind': kind, 'rate': 64, 'table': t, 'flows': [0, 1, 0, 1], 'sorts': 'int', 'burst': [0, 1, 0, 1]}})
     # three classes
     for kind in ('WFQ', 'VC'):
         cfg = {'kind': kind, 'rate': 8, 'table': {0: 1, 1: 1, 2: 2}, 'flows': [0, 1, 2, 2] if tier == 'quick' else [0, 1, 2, 2, 1],
